@@ -6,7 +6,7 @@
    boolean operators, calls, subscripts, displays, comprehensions, lambda, conditional expressions, f-strings, statements,
    float formatting, token spacing) is decided by the strict round-trip oracle only: see DESIGN 5.2. *)
 From Coq Require Import String.
-From PM Require Import Model.Base Model.SyntaxBase Gen.PrecTable Model.Syntax Proofs.SyntaxProofs Model.IntLit Proofs.IntLitProofs Model.PipelineBase Gen.Pipeline.
+From PM Require Import Model.Base Model.SyntaxBase Gen.PrecTable Model.Syntax Proofs.SyntaxProofs Model.IntLit Proofs.IntLitProofs Model.PipelineBase Gen.Pipeline Gen.TokenRules.
 Open Scope bool_scope.
 
 Theorem C02_roundtrip_operator_core : forall e,
@@ -24,6 +24,15 @@ Print Assumptions C02_operand_in_context.
 Theorem C02_int_literal_roundtrip : forall v, int_of_literal (print_int v) = Some v.
 Proof. exact int_literal_roundtrip. Qed.
 Print Assumptions C02_int_literal_roundtrip.
+
+(* token spacing (table regenerated from token_printer.py): a word-like token (identifier, keyword, number, prefixed or
+   alphabetic-prefix literal) that follows an identifier or keyword, and a word that follows a number, always get a space *)
+Theorem C02_word_tokens_are_separated :
+  forallb (fun prev => forallb (fun e => space_needed prev e) [EIdentifier; EKeyword; ESoftKeyword; EString true; EBytes; EFString; EInteger; EFloat; EImag])
+          [CIdentifier; CKeyword; CSoftKeyword] = true /\
+  forallb (fun e => space_needed CNumberLiteral e) [EIdentifier; EKeyword; ESoftKeyword] = true.
+Proof. vm_compute. split; reflexivity. Qed.
+Print Assumptions C02_word_tokens_are_separated.
 
 (* with every transform switched off no tree-changing stage of minify() runs (statement list regenerated from the source);
    rename() still runs but every binding has been marked not renameable (C09_everything_pinned) *)
